@@ -30,9 +30,11 @@ def run(ctx: Ctx):
                     ctx.violation("ego-vs-map:" + "+".join(sorted(set(diff))), "ego-frame and map-frame executions of one scene differ in %s" % sorted(set(diff)),
                                   {"cfg": c, "frame": f, "ego_impl": impls[0], "map_impl": im})
     ctx.extra["scenes_with_single_spec_outcome_compared_directly"] = nsingle
-    from . import pipeline_trace
+    # tracking task with a moving ego: the ego-frame and map-frame executions must yield the same MOTA / MOTP / ID switches (and both
+    # must be behaviours of Clear.tla)
+    from . import tracking_manager
 
-    pipeline_trace.run_traces(ctx, want_clause=lambda cl: True, dual_only=True)
+    ctx.extra["tracking_histories_in_both_frames"] = tracking_manager.run(ctx, renderings=("base_link", "map"), n=25 if ctx.quick else 250, compare=True)
     ctx.rule = (
         "Manager.tla describes a frame in ego-relative coordinates only. Every lattice scene TLC enumerates (families as in C03) is executed by the "
         "real manager with objects stored in base_link and stored in map under two ego poses (quarter turn + large translation; arbitrary yaw 0.7 "
